@@ -299,6 +299,9 @@ def fam_store(E, n, flavour, caps=(1, 2, float('inf'))):
     replay_model(E, log, model)
     handed = [e[3] for e in log.of_event('resumed') if kinds[e[0]] == 1]
     E.prove(len(set(handed)) == len(handed), 'each-item-handed-out-once')
+    E.prove(sorted(ident(x) for x in store.items) == sorted(model.items),
+            'store-content-is-what-was-put-and-not-taken',
+            ('stored %r, model %r', [ident(x) for x in store.items], model.items))
     for g, item in model.value.items():
         r = log.first(g, 'resumed')
         E.prove(r is not None and r[3] == item, 'process-receives-the-granted-item')
